@@ -46,7 +46,35 @@ end
 """
 
 
+BUSY_CFG = """role ticker
+  spotlight i=0; while true; do echo "tick $i"; i=$((i+1)); sleep 0.3; done
+  signal beat event at (?P<ts_now>)tick (?P<event>.*)
+end
+cast
+  tim plays ticker
+end
+script
+  tempo 1s
+  storyline ......
+end
+audience
+  observer watches tim beat
+end
+"""
+
+
+def busy_flush_play(binpath):
+    """The flush ticker must keep firing once per second while events stream
+    in (one observation every 300 ms for 6 s): the Timer is re-armed after a
+    receive, not after every event.  Checked at t=3.6s: the csv file holds data."""
+    return _timed_play(binpath, BUSY_CFG, 3.6)
+
+
 def flush_ticker_play(binpath):
+    return _timed_play(binpath, FLUSH_CFG, 5.0)
+
+
+def _timed_play(binpath, cfg_text, look_at):
     """The collector's flush ticker is the one user of timeutil.Timer in the
     play: Reset(1s) after every receive.  A play that collects nothing during
     its first second and records its first action at t=2s must have flushed
@@ -57,11 +85,11 @@ def flush_ticker_play(binpath):
     tmp = tempfile.mkdtemp(prefix="shk-c18-flush-")
     try:
         with open(os.path.join(tmp, "play.cfg"), "w") as f:
-            f.write(FLUSH_CFG)
+            f.write(cfg_text)
         t0 = _t.time()
         p = subprocess.Popen([binpath, "-o", "out", "--disable-plots", "-q", "play.cfg"], cwd=tmp,
                              stdout=subprocess.PIPE, stderr=subprocess.STDOUT, env=dict(os.environ, SHELL="/bin/bash"))
-        _t.sleep(5.0)
+        _t.sleep(look_at)
         alive = p.poll() is None
         sizes = {}
         for root, _, files in os.walk(os.path.join(tmp, "out")):
@@ -99,8 +127,9 @@ def run(tier, seed):
                       {"kind": "correspondence-build", "what": e.what, "output": e.output[-4000:]}, no_input=True)
         return res.finish()
     import concurrent.futures as _cf
-    _ex = _cf.ThreadPoolExecutor(max_workers=1)
+    _ex = _cf.ThreadPoolExecutor(max_workers=2)
     flush_future = _ex.submit(flush_ticker_play, bins["shakespeare"])
+    busy_future = _ex.submit(busy_flush_play, bins["shakespeare"])
     out = tempfile.mkdtemp(prefix="shk-c18-")
     try:
         rc, o = vlib.run([bins["c18"], "-seed", str(seed), "-tier", tier, "-out", out], timeout=1800)
@@ -194,4 +223,11 @@ def run(tier, seed):
                       "the collector's flush ticker (timeutil.Timer: Read set, Reset(1s) after every receive) no longer fires once per second: a row recorded at t=2s is still not in csv/ at t=5s of a 7s play",
                       {"kind": "failing-input", "config": FLUSH_CFG, "observed": fl,
                        "replay": "shakespeare -o out --disable-plots -q play.cfg; look at out/*/csv/x.csv 5 s after the start"})
+    bf = busy_future.result()
+    res.coverage["collector_busy_flush_play"] = bf
+    if bf["alive_at_5s"] and not any(v > 0 for v in bf["csv_sizes_at_5s"].values()):
+        res.violation("collector-flush-ticker-starved-by-events",
+                      "the collector's flush ticker no longer fires once per second while events stream in: observations arrive every 300 ms, yet nothing is in csv/ 3.6 s after the start of a 6 s play",
+                      {"kind": "failing-input", "config": BUSY_CFG, "observed": bf,
+                       "replay": "shakespeare -o out --disable-plots -q play.cfg; look at out/*/csv/observer.tim.beat.csv 3.6 s after the start"})
     return res.finish()
